@@ -3,7 +3,8 @@
     itself beyond the bound alike, so answers are compared after the projection [proj]: a within-bound pair must
     be the same pair, anything else is the single class "beyond". The third result of FastLCSEGFScore (an end
     position whose value depends on how ties between equally good cells are broken) is modelled by lcs_band but
-    not compared. *)
+    not compared. CR cases tie the two Coq references (lcs_ref, lcs_ref_egf) to the full-matrix Python oracle that judges
+    the long sequences. *)
 From Coq Require Import NArith ZArith List Bool.
 Import ListNotations.
 From OBI.C09 Require Import Model.
@@ -26,6 +27,7 @@ Definition case_ok_sl (c : ccase) : bool :=
   | CD a b d pos a1 a2 =>
     let '(d', pos', a1', a2') := d1or0 a b in
     (d' =? d)%Z && (pos' =? pos)%Z && (a1' =? a1)%N && (a2' =? a2)%N
+  | CR a b egf rs rl => ref_ok a b egf rs rl
   end.
 
 Fixpoint mismatches_sl_from (i : nat) (l : list ccase) : list nat :=
